@@ -89,6 +89,24 @@ T = {
     "C16-6": ("repeat(x, repeats) with repeats a 0-d integer cubed array", ["C16"], "caught", "LAZY-IMPLICIT-1", "clause index added because of this change"),
     "C18-6": ("an equal-but-distinct Spec combined once, collected, and a different Spec allocated at the same address", ["C18", "C19", "C20"], "caught", "SPEC-CHECK-2", "clause no-identity-cache (a module-level container keyed by id(...) consulted by the spec check: positive evidence, reported although the comparison moved into a new private helper) added because of this change; the shape clause itself says 'not decided' there"),
     "C20-6": ("two builder processes importing cubed within the same second with one work_dir, resume=True", ["C20", "C10"], "caught", "CLEANUP-1", "existing clause context-id"),
+    # ------------------------------------------------------------------ round 5 (ids Cxx-e<k>; prompt steered away from the anchored lines, towards helpers / cooperating sites)
+    "C02-e1": ("three or more ops fused over two levels, a streaming op over another, the same block requested twice (broadcast or repeated argument)", ["C02", "C15"], "caught", "FUSE-PROV-1", "existing rule (function-dicts clause)"),
+    "C02-e2": ("lazy store (compute=False) of a lazy op output, then computing only a consumer of the stored array, optimiser on", ["C02", "C11"], "caught", "STORE-NOFUSE-1", "first run: ANALYSIS-ERROR (the in-place re-target had become replace(...) on a copy); clauses copy-marked / copy-stored added because of this change"),
+    "C03-e1": ("default optimiser, an operand used twice (a*a), Zarr-backed sources, two levels of binary ops", ["C03", "C04"], "caught", "MULTI-EDGE-1", "rule added because of this change"),
+    "C03-e2": ("a ragged last chunk, a fused plan, an op with two or more fused predecessors", ["C03", "C04"], "caught", "CHUNKMEM-1", "rule added because of this change"),
+    "C05-e1": ("allow_irregular=False, a budget forcing two or more stages, a shrinking axis", ["C05", "C14"], "caught", "RECHUNK-GRID-1", "existing rule (third independent occurrence of this slip)"),
+    "C05-e2": ("one lazy array executed in-process, then stored (proxy handle cached)", ["C05", "C11", "C06"], "caught", "PROXY-OPEN-1", "existing rule"),
+    "C07-e1": ("resume=True, a multi-output op whose later output is partial", ["C07", "C09"], "caught", "RESUME-ALL-1", "existing rule"),
+    "C07-e2": ("batch_size, an in-flight set finishing within one wait round", ["C07", "C08"], "caught", "MAP-DRAIN-1", "existing rule (fourth independent occurrence)"),
+    "C09-e1": ("a plan that keeps a structured (multi-field) array, a crash between the per-field writes of the last task, resume", ["C09", "C07"], "caught", "RESUME-PROVIDER-1", "rule added because of this change"),
+    "C09-e2": ("resume=True together with compute_arrays_in_parallel=True", ["C09", "C07"], "caught", "BARRIER-SRC-1", "existing rule"),
+    "C10-e1": ("the producing op executed once in-process, then to_zarr of the same array (proxy handle cached)", ["C10", "C06", "C11"], "caught", "OWN-MUT-1", "existing rules (OWN-MUT-1, TASK-PURE-1)"),
+    "C10-e2": ("an array fused away by an earlier optimised compute, then resume with another consumer", ["C10", "C09", "C07"], "caught", "RESUME-MARK-1", "existing rule, registered for C10/C07 because of this change"),
+    "C11-e1": ("a lazy array computed once in-process, then to_zarr / store of it", ["C11", "C05"], "caught", "PROXY-OPEN-1", "existing rule"),
+    "C11-e2": ("batch_size with use_backups off (threads / processes executor)", ["C07", "C08", "C11"], "caught", "MAP-DRAIN-1", "clause refill-gate added because of this change (reported under C07/C08; C11 does not quantify over batch_size)"),
+    "C13-e1": ("use_backups, a straggler and its backup finishing in the same wait round", ["C13", "C08"], "caught", "MAP-ONCE-1", "existing rule"),
+    "C13-e2": ("a lazy region store computed twice (or un-optimised then optimised)", ["C13", "C11"], "caught", "COUNT-1", "clause reiterable:class added because of this change"),
+    "C15-e1": ("fusion, a streaming predecessor, the same predecessor chunk referenced twice", ["C15", "C02"], "caught", "NEST-DISPATCH-1", "existing clause key-fresh-call"),
 }
 
 
@@ -104,7 +122,7 @@ def main():
             continue
         needs, props, expect, by, note = T[sid]
         meta = json.load(open(mp))
-        meta.update({"needs_to_manifest": needs, "check_properties": props, "expect": expect, "caught_by": by, "note": note, "round": 1 if sid.endswith(("-1", "-2")) else 2 if sid.endswith(("-3", "-4")) else 3})
+        meta.update({"needs_to_manifest": needs, "check_properties": props, "expect": expect, "caught_by": by, "note": note, "round": 5 if "-e" in sid else 1 if sid.endswith(("-1", "-2")) else 2 if sid.endswith(("-3", "-4")) else 3})
         json.dump(meta, open(mp, "w"), indent=1)
         n += 1
     print("updated", n, "of", len(T), "known ids")
